@@ -122,6 +122,8 @@ pub struct EnvInner {
     pub singles: u8,
     pub last_tx: Option<Vec<u8>>,
     pub slot_counts: [usize; 5],
+    /// RF configuration of the most recent receive set-up (survives take_trace)
+    pub last_window: Option<Rf>,
     pub resolver: Option<Resolver>,
     // board behaviour
     pub tx_ms: u32,
@@ -156,6 +158,7 @@ impl Env {
             singles: 0,
             last_tx: None,
             slot_counts: [0; 5],
+            last_window: None,
             resolver: None,
             tx_ms: 0,
             nb_async_tx: false,
@@ -168,7 +171,12 @@ impl Env {
         })))
     }
     pub fn push(&self, e: Ev) {
-        self.0.borrow_mut().trace.push(e);
+        let mut inner = self.0.borrow_mut();
+        match &e {
+            Ev::SetupRx { rf, .. } | Ev::RxRequest { rf } => inner.last_window = Some(*rf),
+            _ => {}
+        }
+        inner.trace.push(e);
     }
     /// Counts one radio interaction; Err when this is the interaction chosen to fail.
     pub fn radio_call(&self) -> Result<(), RadioFault> {
